@@ -193,7 +193,10 @@ class DataIterator(types.Recoverable, Iterator[_T]):
 
   @property
   def state(self) -> ShardConfig:
-    return dc.replace(self.config.state, start_index=self._index)
+    # A restored iterator has not skipped to its start index before the first
+    # `next`, the position to resume from is then still that start index.
+    start_index = max(self._index, self.config.state.start_index)
+    return dc.replace(self.config.state, start_index=start_index)
 
   def __next__(self) -> _T:
     """Iterates the data source given a shard index."""
